@@ -204,6 +204,10 @@ func genCase(r *rng.R, id int) caseT {
 			o.NilList = true
 		case x < 4 && lastRules != nil:
 			o.Rules = append([]ruleT{}, lastRules...) // identical reload
+		case x < 8 && len(lastRules) > 0:
+			// the previous rules again with exactly one field of one rule changed
+			o.Rules = append([]ruleT{}, lastRules...)
+			varyRule(r, &o.Rules[r.Intn(len(o.Rules))], &tag)
 		default:
 			n := r.Intn(6)
 			o.Rules = []ruleT{}
@@ -262,6 +266,125 @@ func genCase(r *rng.R, id int) caseT {
 		c.Ops = append(c.Ops, o)
 	}
 	c.Ops = append(c.Ops, opT{Kind: "probe", Dt: uint64(r.PickI(0, 1, 300))})
+	return c
+}
+
+// varyRule changes exactly one field of the rule: ID, metric type, trigger count or strategy.
+func varyRule(r *rng.R, ru *ruleT, tag *int) {
+	if ru.Nil {
+		*tag++
+		*ru = genRule(r, *tag)
+		return
+	}
+	switch r.Intn(5) {
+	case 0:
+		*tag++
+		ru.Tag = *tag
+	case 1:
+		ru.Metric = (ru.Metric + 1 + uint32(r.Intn(4))) % 5
+	case 2:
+		if t := float64(ru.Trigger); t >= 1 {
+			ru.Trigger = F(t / 2)
+		} else {
+			ru.Trigger = F(t + 0.25)
+		}
+	default:
+		if ru.Strategy == 1 {
+			ru.Strategy = -1
+		} else {
+			ru.Strategy = 1
+		}
+	}
+}
+
+// single-field variation reloads (ids varyBase+): a short fixed history leaves one request in flight,
+// inbound QPS 3 and an average RT of 175 ms, load 2 and CPU usage 0.7; rules A are loaded and an
+// inbound request is decided; then A again as fresh objects with exactly ONE field of ONE rule changed,
+// chosen so that the decision depends on that field (strategy BBR <-> none on a load / cpu rule whose
+// trigger is exceeded while the in-flight count is within the estimated capacity; a trigger moved
+// across the current value; the metric type; the ID, seen in the reported rule), a second request, the
+// first list again, a third request. The rule in force must be the last one loaded.
+const varyBase = 200000
+
+func genVary(r *rng.R, id int) caseT {
+	c := caseT{ID: id, Geo: geos[0], T0: 1700000000137 + uint64(r.Intn(100))}
+	in := func(dt uint64) opT { return opT{Kind: "entry", Dt: dt, Inbound: true, Batch: 1} }
+	c.Ops = []opT{in(0), in(50), {Kind: "exit", Dt: 100, K: 1}, in(50), {Kind: "exit", Dt: 50, K: 0},
+		{Kind: "setload", Val: 2}, {Kind: "setcpu", Val: 0.7}}
+	var a, b ruleT
+	switch (id - varyBase) % 9 {
+	case 0: // load rule, BBR -> none
+		a = ruleT{Metric: 0, Trigger: F(r.PickF(0.5, 1, 1.5)), Strategy: 1}
+		b = a
+		b.Strategy = int32(r.PickI(-1, -1, 0))
+	case 1: // load rule, none -> BBR
+		a = ruleT{Metric: 0, Trigger: F(r.PickF(0.5, 1, 1.5)), Strategy: -1}
+		b = a
+		b.Strategy = 1
+	case 2: // cpu rule, BBR -> none
+		a = ruleT{Metric: 4, Trigger: F(r.PickF(0.25, 0.5)), Strategy: 1}
+		b = a
+		b.Strategy = -1
+	case 3: // cpu rule, none -> BBR
+		a = ruleT{Metric: 4, Trigger: F(r.PickF(0.25, 0.5)), Strategy: int32(r.PickI(-1, 2))}
+		b = a
+		b.Strategy = 1
+	case 4: // inbound QPS trigger moved below the current value
+		a = ruleT{Metric: 3, Trigger: F(r.PickF(50, 100)), Strategy: int32(r.PickI(-1, 1))}
+		b = a
+		b.Trigger = F(r.PickF(1, 2, 3))
+	case 5: // concurrency trigger moved above the current value
+		a = ruleT{Metric: 2, Trigger: 1, Strategy: int32(r.PickI(-1, 1))}
+		b = a
+		b.Trigger = F(r.PickF(5, 6))
+	case 6: // average RT trigger, within 1e-8 and beyond
+		a = ruleT{Metric: 1, Trigger: 200, Strategy: -1}
+		b = a
+		b.Trigger = F(r.PickF(100, 175, 200.000000001))
+	case 7: // metric type: concurrency 1 < 2, QPS 3 >= 2
+		a = ruleT{Metric: 2, Trigger: 2, Strategy: int32(r.PickI(-1, 1))}
+		b = a
+		b.Metric = 3
+	default: // the ID only: a violated rule must be reported under its new ID
+		a = ruleT{Metric: 3, Trigger: 1, Strategy: int32(r.PickI(-1, 1))}
+		b = a
+	}
+	// other rules of the list: never violated here, unchanged by the variation
+	others := []ruleT{{Metric: 1, Trigger: 5000, Strategy: -1}, {Metric: 3, Trigger: 1000, Strategy: 1}, {Metric: 0, Trigger: 50, Strategy: -1}, {Nil: true}}
+	mk := func(subject ruleT, tag0 int) []ruleT {
+		l := []ruleT{}
+		pos := r.Intn(3)
+		for i := 0; i < 3; i++ {
+			if i == pos {
+				subject.Tag = tag0
+				l = append(l, subject)
+			} else if r.Bool() {
+				o := others[r.Intn(len(others))]
+				o.Tag = tag0 + 1 + i
+				l = append(l, o)
+			}
+		}
+		return l
+	}
+	// the same positions and other rules in all three lists: only the subject rule's field differs
+	la := mk(a, 10)
+	lb := append([]ruleT{}, la...)
+	for i := range lb {
+		if lb[i].Tag == 10 {
+			b.Tag = 10
+			if (id-varyBase)%9 == 8 {
+				b.Tag = 77
+			}
+			lb[i] = b
+		}
+	}
+	dt := func() uint64 { return uint64(r.PickI(0, 1, 5)) }
+	for k, l := range [][]ruleT{la, lb, la} {
+		c.Ops = append(c.Ops, opT{Kind: "load", Rules: append([]ruleT{}, l...), Dt: dt()},
+			opT{Kind: "entry", Inbound: true, Batch: 1, Res: k % 2, Dt: dt()},
+			opT{Kind: "exit", K: 3 + k, Dt: dt()})
+	}
+	c.Ops = append(c.Ops, opT{Kind: "probe"})
 	return c
 }
 
@@ -543,6 +666,23 @@ func violated(r ruleT, st stats, load, cpu float64) (bool, float64) {
 	return false, 0
 }
 
+// sameArgs: the two loads carry field-for-field the same rules (a NaN trigger equals nothing).
+func sameArgs(a, b opT) bool {
+	if a.NilList != b.NilList || len(a.Rules) != len(b.Rules) {
+		return false
+	}
+	for i := range a.Rules {
+		x, y := a.Rules[i], b.Rules[i]
+		if x.Nil != y.Nil {
+			return false
+		}
+		if !x.Nil && (x.Tag != y.Tag || x.Metric != y.Metric || x.Strategy != y.Strategy || !(float64(x.Trigger) == float64(y.Trigger))) {
+			return false
+		}
+	}
+	return true
+}
+
 func sameF(a, b float64) bool {
 	return math.Float64bits(a) == math.Float64bits(b) || (math.IsNaN(a) && math.IsNaN(b))
 }
@@ -551,6 +691,7 @@ func monitor(c caseT, obs []obsT, rep *emit.Report) (nontrivial bool) {
 	var led []ledEv
 	live := map[int]liveT{}
 	var cur []ruleT
+	lastLoad := opT{Kind: "load", Rules: []ruleT{}} // runCase starts every case with LoadRules of an empty list
 	load, cpu := -1.0, -1.0
 	nEntry := 0
 	t := c.T0
@@ -560,13 +701,20 @@ func monitor(c caseT, obs []obsT, rep *emit.Report) (nontrivial bool) {
 		ob := obs[i]
 		switch o.Kind {
 		case "load":
-			if ob.Changed {
-				cur = nil
-				if !o.NilList {
-					for _, r := range o.Rules {
-						if ruleValid(r) {
-							cur = append(cur, r)
-						}
+			// the rules in force are the valid rules of the last load, whatever LoadRules reported: it may
+			// report 'unchanged' only for arguments that are field for field those of the load before
+			// (and then following the arguments changes nothing)
+			if !ob.Changed && !sameArgs(lastLoad, o) {
+				rep.Fail(c.ID, "C07_loaded_rules", "load-of-different-rules-reported-unchanged",
+					fmt.Sprintf("op %d (t=%d): LoadRules(%+v) returned 'unchanged' although the previous load was %+v: the rules enforced from here on are not the last ones loaded", i, t, o.Rules, lastLoad.Rules), c)
+				return
+			}
+			lastLoad = o
+			cur = nil
+			if !o.NilList {
+				for _, r := range o.Rules {
+					if ruleValid(r) {
+						cur = append(cur, r)
 					}
 				}
 			}
@@ -738,12 +886,38 @@ func main() {
 	}
 	dist := emit.NewDistinct()
 	runOne := func(c caseT, corr bool) {
-		obs := runCase(c, clk)
+		var obs []obsT
+		func() {
+			// the harness never crashes on a mutant: a panic of the code under test is a monitor failure
+			defer func() {
+				if x := recover(); x != nil {
+					rep.Fail(c.ID, "C07_no_panic", "load-or-request-panicked", fmt.Sprint("the case panicked inside the code under test: ", x), c)
+					obs = nil
+				}
+			}()
+			obs = runCase(c, clk)
+		}()
+		if obs == nil {
+			return
+		}
 		rep.Evaluations++
 		nt := monitor(c, obs, rep)
 		if nt {
 			b, _ := json.Marshal(c)
 			dist.Add(string(b))
+		}
+		if c.ID >= varyBase && c.ID < constsID {
+			// the three decisions after the loads A, A' (one field varied), A
+			pat, seenLoad := "", false
+			for i, o := range c.Ops {
+				if o.Kind == "load" {
+					seenLoad = true
+				} else if o.Kind == "entry" && seenLoad {
+					pat += obs[i].Kind[:1]
+				}
+			}
+			rep.Count("single_field_variation_cases", 1)
+			rep.Count(fmt.Sprintf("single_field_variation_kind_%d_decisions_%s", (c.ID-varyBase)%9, pat), 1)
 		}
 		rep.Count(fmt.Sprintf("geometry_%dx%d_%dx%d", c.Geo[0], c.Geo[1], c.Geo[2], c.Geo[3]), 1)
 		if c.T0 < 1000000 {
@@ -796,6 +970,17 @@ func main() {
 		}
 		return j + 64*((j*7+int(a.Seed))%enumVariants)
 	}
+	nVary := 9 * a.Pick(0, 12, 200)
+	if a.Search {
+		nVary *= 5
+	}
+	if a.Only >= varyBase && a.Only < constsID {
+		runOne(genVary(root.Fork(uint64(a.Only)), a.Only), false)
+		for _, f := range rep.MonitorFailures {
+			fmt.Printf("MONITOR-FAIL clause=%s signature=%s %s\n", f.Clause, f.Signature, f.Detail)
+		}
+		return
+	}
 	if a.Only >= 0 {
 		if a.Only >= enumBase {
 			runOne(genEnum(a.Only-enumBase), false)
@@ -809,6 +994,9 @@ func main() {
 	}
 	for j := 0; j < nEnum; j++ {
 		runOne(genEnum(enumIdx(j)), !a.Search)
+	}
+	for k := 0; k < nVary; k++ {
+		runOne(genVary(root.Fork(uint64(varyBase+k)), varyBase+k), k < 18 && !a.Search)
 	}
 	for id := 0; id < nMon; id++ {
 		runOne(genCase(root.Fork(uint64(id)), id), id < nCorr)
